@@ -16,6 +16,8 @@ static mut EXP_PORT: u16 = 0;
 static mut EXP: [u8; 64] = [0; 64];
 static mut EXP_LEN: usize = 0;
 static mut EXP_TCP: bool = false;
+// positions whose value the protocol leaves to the client (ping ids, nonces, GUIDs) are not compared
+static mut FREE: [bool; 64] = [false; 64];
 fn ip() -> IpAddr { IpAddr::V4(Ipv4Addr::new(127, 0, 0, 1)) }
 fn expect(port: u16, tcp: bool, bytes: &[u8]) -> SocketAddr {
     unsafe {
@@ -25,10 +27,20 @@ fn expect(port: u16, tcp: bool, bytes: &[u8]) -> SocketAddr {
         let mut i = 0;
         while i < bytes.len() {
             EXP[i] = bytes[i];
+            FREE[i] = false;
             i += 1;
         }
     }
     SocketAddr::new(ip(), port)
+}
+fn free(from: usize, to: usize) {
+    unsafe {
+        let mut i = from;
+        while i < to {
+            FREE[i] = true;
+            i += 1;
+        }
+    }
 }
 fn rec_udp_new(address: &SocketAddr, _t: &Option<TimeoutSettings>) -> GDResult<UdpSocketImpl> {
     unsafe { assert!(!EXP_TCP, "protocol uses UDP"); assert!(address.port() == EXP_PORT && address.ip() == ip(), "destination is the caller's address and port"); }
@@ -43,7 +55,7 @@ fn check_bytes(data: &[u8]) {
         assert!(data.len() == EXP_LEN, "first request has the protocol's length");
         let mut i = 0;
         while i < EXP_LEN {
-            assert!(data[i] == EXP[i], "first request has the protocol's bytes");
+            assert!(FREE[i] || data[i] == EXP[i], "first request has the protocol's bytes");
             i += 1;
         }
     }
@@ -90,6 +102,7 @@ firstreq!(firstreq_gamespy_one, 70, {
 firstreq!(firstreq_gamespy_two, 70, {
     let port: u16 = kani::any();
     let a = expect(port, false, &[0xFE, 0xFD, 0x00, 0x00, 0x00, 0x00, 0x01, 0xFF, 0xFF, 0xFF]);
+    free(3, 7); // ping id chosen by the client
     let r = crate::protocols::gamespy::two::query(&a, None);
     core::mem::forget(r);
 });
@@ -97,6 +110,7 @@ firstreq!(firstreq_gamespy_three, 70, {
     let port: u16 = kani::any();
     // handshake: FE FD, kind 9, session id 1 (big-endian)
     let a = expect(port, false, &[0xFE, 0xFD, 0x09, 0x00, 0x00, 0x00, 0x01]);
+    free(3, 7); // session id chosen by the client
     let r = crate::protocols::gamespy::three::query(&a, None);
     core::mem::forget(r);
 });
@@ -146,6 +160,8 @@ firstreq!(firstreq_minecraft_bedrock, 70, {
     let port: u16 = kani::any();
     let a = expect(port, false, &[0x01, 0x11, 0x22, 0x33, 0x44, 0x55, 0x66, 0x77, 0x88, 0x00, 0xff, 0xff, 0x00, 0xfe, 0xfe, 0xfe, 0xfe, 0xfd, 0xfd, 0xfd, 0xfd,
                                   0x12, 0x34, 0x56, 0x78, 0x00, 0x00, 0x00, 0x00, 0x00, 0x00, 0x00, 0x00]);
+    free(1, 9);   // nonce / timestamp chosen by the client
+    free(25, 33); // client GUID
     let r = crate::games::minecraft::protocol::query_bedrock(&a, None);
     core::mem::forget(r);
 });
